@@ -23,8 +23,8 @@ CONFIGS = [("jit", {}), ("nojit", {"STEEL_JIT": "false"})]
 PROBE = {"opq", "nest"}                     # phase-1 shapes (one per tuple)
 AFTER_PANIC = {"fold", "fn", "fnacc"}      # phase-2 shapes still replayed for a tuple whose probe panicked
 # in-function shapes additionally replayed as a module file
-MODULE_SHAPES = {"opq", "fn", "fnlitR", "fnlitL", "fnif", "fniflitR", "fnacc", "fnacclit", "fnloop", "namedlet", "fnnest", "fncap", "fnarg"}
-ALWAYS = {"fold", "opq", "nest", "fn", "fnlitR", "fnif", "fnacc", "namedlet"}
+MODULE_SHAPES = {"opq", "fn", "opqC", "fnC", "fnaccC", "fnlitR", "fnlitL", "fnif", "fniflitR", "fnacc", "fnacclit", "fnloop", "namedlet", "fnnest", "fncap", "fnarg"}
+ALWAYS = {"fold", "opq", "opqC", "nest", "fn", "fnC", "fnlitR", "fnif", "fnacc", "fnaccC", "namedlet"}
 
 
 def seeded_cfg(tier, seed, work, cfg_name=None):
